@@ -185,6 +185,10 @@ pub fn run_chain_opt(t: &mut Tracer, orig: &Value, method: &str, same_host: bool
     }
     if body_m {
         b = b.header("content-length", "0");
+        if hops.len() % 2 == 1 {
+            // what an ordinary form post carries
+            b = b.header("content-type", "application/x-www-form-urlencoded").header("content-language", "en").header("content-encoding", "identity").header("content-location", "/form");
+        }
     }
     if opt.explicit_host {
         b = b.header("host", "api.test:8443");
@@ -312,14 +316,19 @@ pub fn run_chain_opt(t: &mut Tracer, orig: &Value, method: &str, same_host: bool
             Some(Ok(Some(mut nf))) => {
                 e["res"] = json!("flow");
                 let mut set_auth = false;
+                let mut mine_cookie: Vec<u8> = vec![];
+                let mut mine_auth: Vec<u8> = vec![];
                 if opt.despite_hops && !matches!(nf.method().as_str(), "POST" | "PUT" | "PATCH") {
                     nf.send_body_despite_method();
                     t.class("hop:despite-on-redirected");
                 }
                 if opt.readd {
                     // the caller's own credentials for the new request: these are not "inherited"
-                    let ok = nf.header("cookie", ureq_proto::http::HeaderValue::from_bytes(NEW_COOKIE).unwrap()).is_ok()
-                        && (hi % 2 == 1 || nf.header("authorization", ureq_proto::http::HeaderValue::from_bytes(NEW_AUTH).unwrap()).is_ok());
+                    // (a value of its own at every hop: what the caller set on one redirected request is not inherited by the next)
+                    mine_cookie = format!("{}-hop{}", String::from_utf8_lossy(NEW_COOKIE), hi + 1).into_bytes();
+                    mine_auth = format!("{}-hop{}", String::from_utf8_lossy(NEW_AUTH), hi + 1).into_bytes();
+                    let ok = nf.header("cookie", ureq_proto::http::HeaderValue::from_bytes(&mine_cookie).unwrap()).is_ok()
+                        && (hi % 2 == 1 || nf.header("authorization", ureq_proto::http::HeaderValue::from_bytes(&mine_auth).unwrap()).is_ok());
                     set_auth = hi % 2 == 0;
                     if !ok {
                         t.ev(json!({"ev":"panic","during":"setting a header on the redirected flow"}));
@@ -344,12 +353,12 @@ pub fn run_chain_opt(t: &mut Tracer, orig: &Value, method: &str, same_host: bool
                 let hosts: Vec<&(String, Vec<u8>)> = lh.fields.iter().filter(|f| f.0 == "host").collect();
                 e["hostline"] = json!(if hosts.len() == 1 { String::from_utf8_lossy(&hosts[0].1).to_string() } else { format!("<{} host fields>", hosts.len()) });
                 // inherited = on the wire without having been set by the caller on this flow
-                let mine = |f: &&(String, Vec<u8>)| opt.readd && (f.1 == NEW_AUTH || f.1 == NEW_COOKIE);
+                let mine = |f: &&(String, Vec<u8>)| opt.readd && (f.1 == mine_auth || f.1 == mine_cookie);
                 e["auth"] = json!(lh.fields.iter().filter(|f| !mine(f)).any(|f| f.0 == "authorization"));
                 e["cookie"] = json!(lh.fields.iter().filter(|f| !mine(f)).any(|f| f.0 == "cookie"));
                 if opt.readd {
                     // what the caller set must be there (C16 checks order and multiplicity)
-                    e["mine_sent"] = json!(lh.fields.iter().any(|f| f.0 == "cookie" && f.1 == NEW_COOKIE));
+                    e["mine_sent"] = json!(lh.fields.iter().any(|f| f.0 == "cookie" && f.1 == mine_cookie));
                 }
                 debug_assert!(ORIG_AUTH.len() + ORIG_COOKIE.len() == 5);
                 e["clen"] = json!(lh.fields.iter().any(|f| f.0 == "content-length"));
